@@ -1146,6 +1146,8 @@ theorem Inv.stepCore {P : Params} (hv : P.v = repaired) (httl : 0 < P.ttl) {S : 
       simpa [specStepCore, stepOk, Tunnox.C08.stepCore, hd'] using h.shutdown n hd
   | lookBegin j x => exact h.setPending _
   | lookEnd j x => exact h.setPending _
+  | reqBegin k j x => exact ⟨h.now_eq, h.nodeOk, h.conns_opened, h.store, h.live, h.down_eq⟩
+  | reqEnd k j x => exact ⟨h.now_eq, h.nodeOk, h.conns_opened, h.store, h.live, h.down_eq⟩
   | tick dt => exact h.tick dt
 
 /-! ## what the invariant says about an observation -/
